@@ -216,7 +216,7 @@ impl Prop for C16 {
         ]
     }
     fn cases(tier: Tier) -> u64 {
-        tier.pick(8000, 100_000)
+        tier.pick(8000, 60_000)
     }
     fn strategy(_tier: Tier) -> BoxedStrategy<Case> {
         prop_oneof![
